@@ -38,7 +38,7 @@ uint8_t sym_cnt[BLK + 1];
 /* counter value C + m (m may be negative), big-endian, modulo 2^(8*BLK): written independently of the library */
 static void ctr_plus(uint8_t *out, const uint8_t *c, int m)
 {
-    memcpy(out, c, BLK);
+    if (out != c) memcpy(out, c, BLK);
     if (m >= 0) vh_be_add(out, BLK, (unsigned)m);
     else for (int k = 0; k < -m; k++) vh_be_dec(out, BLK);
 }
